@@ -16,6 +16,7 @@ TECHNIQUE = 'property-based testing (Hypothesis): reported and traced per-node g
 RULE = ('cases = generated marker tables (missing parents, empty lists, duplicates, genes absent from the query), query gene sets/orders, '
         'min_markers 1-6, flatten/drop, plus three error-path variants (root unusable, marker unknown to the reference, no shared marker); '
         'non-trivial = at least one voting parent needed an ancestor or the root, or an error path; distinct = distinct spec hash')
+RULE += '; queries with 240-300 extra genes, index arrays of other integer widths'
 ASSUMPTIONS = ['root-unusable error path is only asserted when the root has >=2 children in the tree used for voting']
 
 
